@@ -193,6 +193,61 @@ Proof. apply runs_end_together. Qed.
 Lemma delta_spec a b : delta a b = match a, b with Some s, Some e => Some (e - s) | _, _ => None end.
 Proof. destruct a, b; reflexivity. Qed.
 
+(* ---------- what the timing fields of the fold are: the time of the FIRST frame of each kind ---------- *)
+Definition first_ts (p : mkind -> bool) (fs : list mframe) : option N :=
+  option_map m_ts (find (fun f => p (m_kind f)) fs).
+Definition is_started (k : mkind) : bool := match k with MSessionStarted => true | _ => false end.
+Definition is_output (k : mkind) : bool := match k with MOutputDelta => true | _ => false end.
+Definition or_first (o : option N) (x : option N) : option N := match o with Some _ => o | None => x end.
+
+Lemma m_observe_fields m f :
+  x_started (m_observe m f) = or_first (x_started m) (if is_started (m_kind f) then Some (m_ts f) else None)
+  /\ x_first_out (m_observe m f) = or_first (x_first_out m) (if is_output (m_kind f) then Some (m_ts f) else None)
+  /\ x_ended (m_observe m f) = or_first (x_ended m) (if is_ended (m_kind f) then Some (m_ts f) else None).
+Proof.
+  unfold m_observe.
+  destruct (m_kind f); cbn [is_started is_output is_ended];
+    repeat match goal with |- context [if ?b then _ else _] => destruct b eqn:? end;
+    cbn [x_started x_first_out x_ended or_first];
+    repeat match goal with H : is_none ?o = _ |- _ => destruct o; cbn [is_none] in H; try discriminate H; clear H end;
+    cbn [or_first]; auto;
+    repeat split; try (destruct (x_started m); reflexivity); try (destruct (x_first_out m); reflexivity);
+    try (destruct (x_ended m); reflexivity).
+Qed.
+
+Lemma metrics_step_metrics s f : ms_metrics (fst (metrics_step s f)) = m_observe (ms_metrics s) f.
+Proof. unfold metrics_step. cbn [fst]. destruct (m_kind f); reflexivity. Qed.
+
+Lemma msteps_timing fs : forall s,
+  let m := ms_metrics (msteps s fs) in
+  x_started m = or_first (x_started (ms_metrics s)) (first_ts is_started fs)
+  /\ x_first_out m = or_first (x_first_out (ms_metrics s)) (first_ts is_output fs)
+  /\ x_ended m = or_first (x_ended (ms_metrics s)) (first_ts is_ended fs).
+Proof.
+  induction fs as [|f fs IH]; intros s; cbv zeta.
+  - cbn. repeat split; match goal with |- ?o = or_first ?o None => destruct o; reflexivity end.
+  - unfold msteps; cbn [fold_left]. fold (msteps (fst (metrics_step s f)) fs).
+    specialize (IH (fst (metrics_step s f))). cbv zeta in IH. destruct IH as [A [B C]].
+    rewrite A, B, C, metrics_step_metrics.
+    destruct (m_observe_fields (ms_metrics s) f) as [A' [B' C']]. rewrite A', B', C'.
+    unfold first_ts. cbn [find].
+    repeat split.
+    + destruct (is_started (m_kind f)); destruct (x_started (ms_metrics s)); reflexivity.
+    + destruct (is_output (m_kind f)); destruct (x_first_out (ms_metrics s)); reflexivity.
+    + destruct (is_ended (m_kind f)); destruct (x_ended (ms_metrics s)); reflexivity.
+Qed.
+
+(* ttft_ms and e2e_ms as printed: (first output − first start) and (first end − first start), saturating at 0,
+   null when either frame was not seen — for every frame sequence *)
+Theorem metrics_ttft_e2e fs :
+  let m := ms_metrics (msteps mstate0 fs) in
+  delta (x_started m) (x_first_out m) = delta (first_ts is_started fs) (first_ts is_output fs)
+  /\ delta (x_started m) (x_ended m) = delta (first_ts is_started fs) (first_ts is_ended fs).
+Proof.
+  cbv zeta. destruct (msteps_timing fs mstate0) as [A [B C]]. cbv zeta in A, B, C.
+  rewrite A, B, C. cbn. auto.
+Qed.
+
 (* non-vacuity *)
 Definition demo_lines : list line :=
   [ {| l_text := [123; 49; 125]; l_frame := Some {| m_ts := 100; m_kind := MSessionStarted |} |};
